@@ -41,6 +41,12 @@ def cases_kernel(tier):
     for n in ((1, 2, 3) if tier == "quick" else (1, 2, 3, 4, 5, 6)):
         for failed in _masks(n):
             yield "n%d/%s" % (n, "".join("F" if f else "o" for f in failed)), {"n": n, "failed": failed}
+    # large ensembles: bounded run-time checking of the same specification on the real code only (not a proof; the proof is per
+    # enumerated size above) - sizes past any small-ensemble special case, with and without failures
+    for n in (8, 17, 24, 40) + ((64, 100) if tier == "thorough" else ()):
+        for nf in (0, 3):
+            failed = [(i * 7 + 3) % n < nf for i in range(n)]
+            yield "large/n%d/failures=%d" % (n, nf), {"n": n, "failed": failed, "__concrete_only__": True}
 
 
 def scn_kernel(T, case):
@@ -228,6 +234,38 @@ def scn_steps(T, case):
     stepcontract.scenario(T, case, "C04")
 
 
+# ------------------------------------------------------------------------------------ filters on some functions + failed realizations, one request or two
+def cases_filters_and_failures(tier):
+    from contracts import C02
+
+    for cid, c in C02.cases_rows(tier):
+        if c.get("fail_real") is not None or c.get("fail_pert") is not None:
+            yield cid, c
+
+
+def scn_filters_and_failures(T, case):
+    """'Failed realizations get zero weight' at the place where the evaluator applies a filter's weights: the function result flags exactly the realizations whose function evaluation failed - not those that fail only through their perturbations in a combined request - and a flagged realization contributes nothing (C02's weight-row scenario under this property's prefix; the filter is abstract here, the real CVaR filter inside the evaluator is the scenario above)."""
+    from contracts import C02
+    from contracts.reuse import Renamed
+
+    C02.scn_rows(Renamed(T, "C02.rows.", "C04.combined."), case)
+
+
+# ------------------------------------------------------------------------------------ each filter's weights reach exactly the functions mapped to it
+def cases_filter_rows(tier):
+    from contracts import C05
+
+    return C05.cases_rows(tier)
+
+
+def scn_filter_rows(T, case):
+    """The CVaR weights of a filter are in force for exactly the objectives and constraints mapped to that filter - also when another
+    filter is in use next to it, at a lower or a higher index (C05's row-mapping scenario under this property's prefix)."""
+    from contracts import C05
+    from contracts.reuse import Renamed
+
+    C05.scn_rows(Renamed(T, "C05.rows.", "C04.rows."), case)
+
 SCENARIOS = [
     Scenario("kernel", scn_kernel, cases_kernel, {"quick": 5, "thorough": 40}),
     Scenario("flavours", scn_flavours, cases_flavours, {"quick": 5, "thorough": 30}),
@@ -235,6 +273,8 @@ SCENARIOS = [
     Scenario("kernel_bit_precise_binary64", scn_fp, cases_fp, {"quick": 50, "thorough": 300}),
     Scenario("filter_inside_the_evaluator", scn_chain, cases_chain, {"quick": 3, "thorough": 10}),
     Scenario("plan_steps_hand_over", scn_steps, cases_steps, {"quick": 1, "thorough": 2}),
+    Scenario("filters_failures_and_combined_requests", scn_filters_and_failures, cases_filters_and_failures, {"quick": 5, "thorough": 30}),
+    Scenario("filter_rows", scn_filter_rows, cases_filter_rows, {"quick": 3, "thorough": 20}),
 ]
 
 MANIFEST = {
